@@ -946,17 +946,17 @@ impl ShapeRun for PoisonedRunner {
             0 => {
                 let m = Mutex::new(inner);
                 poison(&mut || { let _g = m.lock().unwrap(); panic!("{}", crate::tracked::INJECTED); });
-                ("poisoned Mutex<String>", std::panic::catch_unwind(std::panic::AssertUnwindSafe(|| m.heap_size())).ok())
+                ("poisoned Mutex<String>", crate::tracked::expecting_panics(|| std::panic::catch_unwind(std::panic::AssertUnwindSafe(|| m.heap_size())).ok()))
             },
             1 => {
                 let m = RwLock::new(inner);
                 poison(&mut || { let _g = m.write().unwrap(); panic!("{}", crate::tracked::INJECTED); });
-                ("poisoned RwLock<String>", std::panic::catch_unwind(std::panic::AssertUnwindSafe(|| m.heap_size())).ok())
+                ("poisoned RwLock<String>", crate::tracked::expecting_panics(|| std::panic::catch_unwind(std::panic::AssertUnwindSafe(|| m.heap_size())).ok()))
             },
             _ => {
                 let m = Box::new(Mutex::new(inner));
                 poison(&mut || { let _g = m.lock().unwrap(); panic!("{}", crate::tracked::INJECTED); });
-                ("Box<poisoned Mutex<String>>", std::panic::catch_unwind(std::panic::AssertUnwindSafe(|| m.heap_size())).ok()
+                ("Box<poisoned Mutex<String>>", crate::tracked::expecting_panics(|| std::panic::catch_unwind(std::panic::AssertUnwindSafe(|| m.heap_size())).ok())
                     .map(|h| h - std::mem::size_of::<Mutex<String>>()))
             },
         };
